@@ -4,7 +4,8 @@ Path rules (E-P) on Actor._run_loop / Actor.start / BackgroundService.{cancel,st
 plus who-may-call and override discipline over every BackgroundService subclass.
 
 Every anchored function is analysed on its *normalised* form (sa.engine.normalize: private helpers
-spliced in, assignment diamonds folded; locals are resolved on demand by Flow.expand) and every guard is decided
+spliced in -- also pieces of the run loop that report the outcome of a run through their return value, see
+_c10_util.splice_valued --, assignment diamonds folded; locals are resolved on demand by Flow.expand) and every guard is decided
 semantically: a rule fixes a valuation of the relevant atoms (`limit is None`, `n < limit`,
 `self.is_running`, `self._tasks` non-empty, ...) and asks path questions on the CFG restricted to
 the branch sides compatible with that valuation (sa.props._c10_util.Flow).  Roles (restart counter,
@@ -1642,6 +1643,9 @@ def check(run: Run, prog: Program, tier: str) -> str:
     run.assume("logging calls do not raise; context managers do not swallow exceptions")
     run.assume("asyncio semantics: CancelledError is a BaseException and surfaces only at await "
                "points and Task.result()/exception()")
+    run.assume("outcomes a piece of the run loop returns to the loop: literal constants and distinct upper-case "
+               "members of one class (enum members) are distinct, non-None values; a caught exception is not None "
+               "and truthy")
     run.undecided("real timing of the restart delay; fairness of the event loop")
     run.sample({"cfg": "Actor._run_loop", "nodes": len(Flow(prog, prog.func(f'{ACTOR}._run_loop')).cfg.nodes)})
     return ("Path rules over the exception-aware CFGs of Actor._run_loop/start, BackgroundService."
